@@ -211,7 +211,7 @@ func runC12(c *explore.Ctx) {
 		}
 		s.WallS = time.Since(t0).Seconds()
 	}
-	lang("sentences-full", c.Pick(7, 9), false)
+	lang("sentences-full", c.Pick(7, 8), false)
 	lang("sentences-g1", c.Pick(11, 13), true)
 
 	// string values
